@@ -67,7 +67,7 @@ func setup(args map[string]string, tier string) error {
 // instance (sorted insertion, no unrelated documents, no tracing, no history).
 type refReq struct {
 	Docs      []int    `json:"docs"`  // indices into the corpus
-	Twins     []int    `json:"twins"` // positions in Docs whose text is added again under the name Twin-<k>
+	Twins     []int    `json:"twins"` // positions in Docs whose text is added again: under the name Twin-<k> (even k) or under the same name as variant <variant>.twin-<k> (odd k)
 	Threshold float64  `json:"threshold"`
 	Inputs    [][]byte `json:"inputs"`
 }
@@ -79,6 +79,12 @@ func worldDocs(r *refReq) []v2kit.Doc {
 	}
 	for k, p := range r.Twins {
 		d := w[p]
+		if k%2 == 1 {
+			// same license name, another variant with the same text: only Variant
+			// distinguishes the two results (round 4, C04-m13)
+			w = append(w, v2kit.Doc{Category: d.Category, Name: d.Name, Variant: fmt.Sprintf("%s.twin-%d", d.Variant, k), Data: d.Data})
+			continue
+		}
 		w = append(w, v2kit.Doc{Category: d.Category, Name: fmt.Sprintf("Twin-%d", k), Variant: d.Variant, Data: d.Data})
 	}
 	return w
@@ -258,7 +264,7 @@ func run(c *hlib.Ctx) *hlib.Run {
 		tr("world: %d documents, threshold %v, %d instances, shuffle_maps=%v", len(world), threshold, len(insts), cfg.ShuffleMaps)
 
 		// ---- inputs --------------------------------------------------------
-		pool := &v2kit.Pool{Scenarios: scs, Docs: world, Threshold: threshold}
+		pool := &v2kit.Pool{Scenarios: scs, Docs: world, Threshold: threshold, Partials: true}
 		nin := 1 + s.Draw(4, "n-inputs")
 		inputs := make([]v2kit.Input, nin)
 		for i := range inputs {
